@@ -18,10 +18,10 @@ echo "changed packages: $PK"
 go test -vet=off -count=1 -skip "$SKIP" $PK ./pkg/ipam/floatingip/ ./pkg/ipam/schedulerplugin/ ./pkg/ipam/api/ 2>&1 | grep "^ok\|^FAIL\|^---" | sort -u | tail -8
 cp $SD/zz_seed_demo_test.go $D/
 echo "--- demo WITH change (expect FAIL)"
-go test -vet=off -count=1 -timeout 90s -run 'Seed' ./$D/ 2>&1 | grep "^ok\|^FAIL\|^--- \|panic:" | head -4
+go test $RACEFLAG -vet=off -count=1 -timeout 180s -run 'Seed' ./$D/ 2>&1 | grep "^ok\|^FAIL\|^--- \|panic:\|DATA RACE" | head -4
 git apply -R $P
 echo "--- demo WITHOUT change (expect ok)"
-go test -vet=off -count=1 -timeout 90s -run 'Seed' ./$D/ 2>&1 | grep "^ok\|^FAIL\|^--- " | head -3
+go test $RACEFLAG -vet=off -count=1 -timeout 180s -run 'Seed' ./$D/ 2>&1 | grep "^ok\|^FAIL\|^--- \|DATA RACE" | head -3
 } > $SD/confirmation2.txt 2>&1
 cd /verif; git -C /repo worktree remove --force $W
 cat $SD/confirmation2.txt
